@@ -550,6 +550,11 @@ class Pdhg(Instance):
                            tau=self.tau, sigma=self.sigma, theta=self.theta,
                            x_relax=st['x_relax'], y=st['y'], callback=callback)
 
+    def run_plain(self, st, niter, callback=None):
+        odl().solvers.pdhg(st['x'], self.f, self.g, self.L, niter,
+                           tau=self.tau, sigma=self.sigma, theta=self.theta,
+                           callback=callback)
+
 
 class _MultiOp(Instance):
     def __init__(self, cfg):
